@@ -1515,7 +1515,7 @@ impl Attr for XmlAttr {
     }
 
     fn specified(&self) -> bool {
-        self.attribute.borrow().owner_element().is_ok()
+        self.attribute.borrow().specified()
     }
 
     fn value(&self) -> error::Result<String> {
